@@ -1,7 +1,142 @@
-//! Synthetic classes added to the Qt metatypes (DESIGN.md section 2.2).
+//! Synthetic classes added to the Qt metatypes (DESIGN.md section 2.2). They are *type
+//! information*, exactly like a user's own metatypes file passed with --foreign-types, built so
+//! that every typing and notification situation has a name the harness controls.
 
-use qmluic::metatype::Class;
+use qmluic::metatype::{Class, ClassInfo, CompilationUnit, Enum, Method, Property};
+
+fn prop(name: &str, ty: &str, read: bool, write: bool, notify: Option<&str>, constant: bool) -> Property {
+    let cap = {
+        let mut c = name.chars();
+        let f = c.next().unwrap().to_ascii_uppercase();
+        format!("{f}{}", c.as_str())
+    };
+    Property {
+        name: name.to_owned(),
+        r#type: ty.to_owned(),
+        read: read.then(|| name.to_owned()),
+        write: write.then(|| format!("set{cap}")),
+        notify: notify.map(|s| s.to_owned()),
+        constant,
+        ..Default::default()
+    }
+}
+
+/// read/write property with notify signal `<name>Changed`
+fn rw(name: &str, ty: &str) -> Property {
+    prop(name, ty, true, true, Some(&format!("{name}Changed")), false)
+}
+
+fn sig(name: &str, args: &[&str]) -> Method {
+    Method::with_argument_types(name, "void", args.iter().copied())
+}
+
+fn slot(name: &str, ret: &str, args: &[&str]) -> Method {
+    Method::with_argument_types(name, ret, args.iter().copied())
+}
+
+pub const SRC_SCALARS: &[(&str, &str)] = &[
+    ("i0", "int"), ("i1", "int"), ("u0", "uint"), ("d0", "double"), ("d1", "double"), ("r0", "qreal"),
+    ("b0", "bool"), ("b1", "bool"), ("s0", "QString"), ("s1", "QString"), ("sl0", "QStringList"), ("il0", "QList<int>"),
+    ("e0", "VSrc::Mode"), ("f0", "VSrc::Opts"), ("v0", "QVariant"), ("p0", "VSrc*"), ("p1", "VSrc*"), ("w0", "QWidget*"),
+];
+
+/// notify signals that carry the new value as argument (the others carry nothing)
+pub const SRC_NOTIFY_WITH_ARG: &[&str] = &["i1", "d1", "b1", "s1", "p1"];
+
+pub const DST_TARGETS: &[(&str, &str)] = &[
+    ("ti", "int"), ("tu", "uint"), ("td", "double"), ("tb", "bool"), ("ts", "QString"), ("tsl", "QStringList"), ("til", "QList<int>"),
+    ("te", "VSrc::Mode"), ("tf", "VSrc::Opts"), ("tp", "VSrc*"), ("tw", "QWidget*"), ("tv", "QVariant"),
+    ("ti2", "int"), ("ts2", "QString"), ("tb2", "bool"), ("td2", "double"),
+];
 
 pub fn verif_classes() -> Vec<Class> {
-    vec![]
+    let mut out = vec![];
+
+    // ---- VSrc -------------------------------------------------------------------------------
+    let mut src = Class::with_supers("VSrc", ["QWidget"]);
+    src.class_infos.push(ClassInfo::new("QML.Element", "auto"));
+    src.enums.push(Enum::with_values("Mode", ["ModeA", "ModeB", "ModeC"]));
+    let mut opts = Enum::new_flag("Opts", "Opt");
+    opts.values = vec!["OptA".into(), "OptB".into(), "OptC".into()];
+    src.enums.push(opts);
+    for (n, t) in SRC_SCALARS {
+        src.properties.push(rw(n, t));
+        let args: Vec<&str> = if SRC_NOTIFY_WITH_ARG.contains(n) { vec![t] } else { vec![] };
+        src.signals.push(sig(&format!("{n}Changed"), &args));
+    }
+    src.properties.push(prop("ci", "int", true, false, None, true)); // CONSTANT
+    src.properties.push(prop("nn", "int", true, true, None, false)); // no NOTIFY, not constant
+    src.properties.push(prop("ro", "int", true, false, Some("roChanged"), false)); // read-only, notifying
+    src.signals.push(sig("roChanged", &[]));
+    src.properties.push(prop("wo", "int", false, true, None, false)); // write-only
+    src.properties.push(prop("ov", "int", true, true, Some("ovChanged"), false)); // overloaded notify name
+    src.signals.push(sig("ovChanged", &[]));
+    src.signals.push(sig("ovChanged", &["int"]));
+    out.push(src);
+
+    out.push(Class::with_supers("VSub", ["VSrc"]));
+    out.push(Class::with_supers("VSub2", ["VSub"]));
+
+    // ---- VDst -------------------------------------------------------------------------------
+    let mut dst = Class::with_supers("VDst", ["QWidget"]);
+    for (n, t) in DST_TARGETS {
+        dst.properties.push(rw(n, t));
+        dst.signals.push(sig(&format!("{n}Changed"), &[]));
+    }
+    dst.properties.push(prop("tfont", "QFont", true, true, None, false));
+    dst.properties.push(prop("tpol", "QSizePolicy", true, true, None, false));
+    // names that collide by concatenation with object names (C16/C10)
+    for n in ["ab", "b", "b1", "x1"] {
+        dst.properties.push(rw(n, "int"));
+        dst.signals.push(sig(&format!("{n}Changed"), &[]));
+    }
+    out.push(dst);
+
+    // ---- VSig -------------------------------------------------------------------------------
+    let mut vsig = Class::with_supers("VSig", ["QWidget"]);
+    vsig.signals.extend([
+        sig("fired", &[]),
+        sig("firedI", &["int"]),
+        sig("firedIS", &["int", "QString"]),
+        sig("firedB", &["bool"]),
+        sig("firedD", &["double"]),
+        sig("firedP", &["VSrc*"]),
+        // default-argument pair, as moc emits for `void trig(bool = false)`
+        sig("trig", &[]),
+        sig("trig", &["bool"]),
+        // true overload
+        sig("ov", &["int"]),
+        sig("ov", &["QString"]),
+    ]);
+    vsig.slots.extend([
+        slot("doIt", "void", &[]),
+        slot("take", "void", &["int"]),
+        slot("take2", "void", &["int", "QString"]),
+        slot("takeS", "void", &["QString"]),
+        slot("takeB", "void", &["bool"]),
+        slot("takeD", "void", &["double"]),
+        slot("takeP", "void", &["QWidget*"]),
+        slot("onlySlot", "void", &[]),
+    ]);
+    vsig.methods.push(slot("twice", "int", &["int"]));
+    out.push(vsig);
+
+    // ---- classes whose names look like generated object names (C10) ---------------------------
+    out.push(Class::with_supers("Label1", ["QLabel"]));
+    out.push(Class::with_supers("QLabel1", ["QLabel"]));
+    out.push(Class::with_supers("KLabel", ["QLabel"]));
+    out.push(Class::with_supers("Widget2", ["QWidget"]));
+    out.push(Class::with_supers("Q3D", ["QWidget"]));
+    out.push(Class::with_supers("Label", ["QLabel"]));
+    out.push(Class::with_supers("QAction1", ["QAction"]));
+    out
+}
+
+/// The synthetic classes as a metatypes.json document (for `--foreign-types`).
+pub fn verif_metatypes_json() -> String {
+    let unit = CompilationUnit {
+        classes: verif_classes(),
+        ..Default::default()
+    };
+    serde_json::to_string_pretty(&vec![unit]).unwrap()
 }
